@@ -67,7 +67,7 @@ fn gen_args(rng: &mut Rng, prefix: &str, shorts: &mut Vec<char>, n_opts: usize, 
             let with_help = rng.chance(1, 2);
             (0..1 + rng.below(3)).map(|j| {
                 let h = rng.chance(1, 4);
-                (format!("pv{id}k{j}{}", "k".repeat(rng.below(4))), h, if with_help && rng.chance(2, 3) { Some(text(rng, &format!("PH{id}k{j}"))) } else { None })
+                (format!("pv{id}k{j}{}{}", "k".repeat(rng.below(4)), rng.pick(&["", "", "", "\u{e9}", "\u{4f60}\u{597d}", "\u{e9}\u{e9}\u{e9}"])), h, if with_help && rng.chance(2, 3) { Some(text(rng, &format!("PH{id}k{j}"))) } else { None })
             }).collect()
         } else { vec![] };
         let defaults = if takes && !required && num.is_none() && vnames.len() < 2 && rng.chance(1, 4) {
@@ -195,7 +195,7 @@ fn request(cmd: &Command, use_long: bool, width: usize) -> String {
         for d in defs { toks.push(hex(d.to_string_lossy().as_bytes())); }
         let pvs = a.get_possible_values();
         toks.push(pvs.len().to_string());
-        for p in pvs { toks.push(hex(p.get_name().as_bytes())); toks.push(format!("{}{}", b01(p.is_hide_set()), b01(p.get_help().is_some()))); }
+        for p in pvs { toks.push(hex(p.get_name().as_bytes())); toks.push(format!("{}{}", b01(p.is_hide_set()), b01(p.get_help().is_some()))); toks.push(dw(p.get_name()).to_string()); }
     }
     let subs: Vec<&Command> = cmd.get_subcommands().collect();
     toks.push(subs.len().to_string());
